@@ -856,19 +856,32 @@ where
             return Err(ZiporaError::not_found("invalid record ID"));
         }
 
-        // Get blob ID from node mapping
-        let _blob_id = *self.node_to_blob_map.get(&(node_id as usize))
-            .ok_or_else(|| ZiporaError::not_found("node mapping not found"))?;
+        // The blob this record owns
+        let blob_id = self.record_to_blob_map.get(id as usize)
+            .copied()
+            .filter(|&blob_id| blob_id != usize::MAX)
+            .ok_or_else(|| ZiporaError::not_found("invalid record ID"))?;
 
         // Remove from blob store (only allowed if not finalized, since finalized stores are read-only)
         if self.finalized {
             return Err(ZiporaError::invalid_operation("Cannot remove from finalized store"));
         }
 
-        // Remove from trie (reconstruct key first)
-        let key = self.trie.restore_string(node_id as u32)
-            .ok_or_else(|| ZiporaError::not_found("Could not restore key from node ID"))?;
-        self.trie.remove(&key)?;
+        // The key (trie node) resolves to the latest record put under it. Only when that record is the one
+        // being removed does the key lose its value; a newer record under the same key keeps the key alive.
+        let is_current = self.node_to_blob_map.get(&node_id) == Some(&blob_id);
+        let mut key = Vec::new();
+        if is_current {
+            // Remove from trie (reconstruct key first)
+            key = self.trie.restore_string(node_id as u32)
+                .ok_or_else(|| ZiporaError::not_found("Could not restore key from node ID"))?;
+            self.trie.remove(&key)?;
+            // the trie may keep the node (removal is not supported by every strategy): drop the mapping itself
+            self.node_to_blob_map.remove(&node_id);
+        }
+
+        // Forget the record's data
+        self.temp_blob_storage.remove(&blob_id);
 
         // Mark record as removed
         if (id as usize) < self.record_to_node_map.len() {
@@ -879,14 +892,14 @@ where
         }
 
         // Remove from cache if present
-        if self.config.key_cache_size > 0 {
+        if is_current && self.config.key_cache_size > 0 {
             self.key_cache.remove(&key);
         }
 
         // Update statistics
         if self.config.enable_statistics {
             self.stats.blob_stats.record_remove(0); // Size not tracked for removes
-            if self.stats.key_count > 0 {
+            if is_current && self.stats.key_count > 0 {
                 self.stats.key_count -= 1;
                 self.stats.total_key_size = self.stats.total_key_size.saturating_sub(key.len());
                 self.stats.average_key_length = if self.stats.key_count > 0 {
